@@ -19,6 +19,9 @@ def region(name):
 
 
 def in_region(name, line, impl, model):
+    if name.startswith("panic-site:"):
+        # a known finding identified by its call site: the surface sweep reports `panic@<crate>/src/<file>:<line>`
+        return impl == "panic@" + name[len("panic-site:"):]
     f = REGIONS.get(name)
     if f is None:
         return False
